@@ -6,20 +6,20 @@ ids=[p['id'] for p in props]
 fix_commits=[l.split()[0] for l in subprocess.check_output(['git','-C','/repo','log','--format=%h %s']).decode().splitlines() if ' fix:' in ' '+l]
 OPS={
  "C01":("fault_enumeration","seeded storage-fault injection on content files + reference model; exhaustive bit-flip/truncation core","§3 C01"),
- "C02":("exploration","seeded operation histories against a reference model (stream-call schedules, mixed flavours)","§3 C02"),
- "C05":("exploration","seeded + bounded-exhaustive operation histories against a reference model","§3 C05"),
+ "C02":("exploration","seeded operation histories against a reference model (stream-call schedules, mixed flavours); own-writes family: one async client under the system-call scheduler reads back what it has just written while its runtime's pool threads still hold parked calls","§3 C02"),
+ "C05":("exploration","seeded + bounded-exhaustive operation histories against a reference model; own-writes family under the system-call scheduler; keys sharing index directories","§3 C05"),
  "C06":("fault_enumeration","storage-fault injection on index buckets (exhaustive cut/flip core) + independent decoder as oracle","§3 C06"),
- "C08":("exploration","seeded option/chunking histories against a reference model","§3 C08"),
- "C09":("exploration","seeded removal histories with full audits against a reference model","§3 C09"),
+ "C08":("exploration","seeded option/chunking histories against a reference model; abandon-chunk family under the system-call scheduler (a dropped write future, acknowledged-bytes oracle)","§3 C08"),
+ "C09":("exploration","seeded removal histories with full audits against a reference model; own-writes family under the system-call scheduler; lazily consumed listings with a removal inside","§3 C09"),
  "C10":("exploration","seeded + bounded-exhaustive histories; listing vs model vs lookup","§3 C10"),
  "C11":("exploration","seeded metadata round trips with a simulated wall clock (symbol interposition)","§3 C11"),
  "C12":("exploration","differential simulation: one program through three flavour builds","§3 C12"),
- "C14":("exploration","seeded abandonment points (incl. poll-once-then-drop) with index/tmp snapshots","§3 C14"),
- "C16":("exploration","seeded re-write histories; digests vs independent implementation; content area vs model","§3 C16"),
- "C17":("exploration","two-party histories: library vs independent reference writer/reader of the format","§3 C17"),
+ "C14":("exploration","seeded abandonment points (incl. poll-once-then-drop) with index/tmp snapshots; scheduler families: abandoned/cancelled async writers with their pool threads scheduled, commits failing on every call x errno, dropped write futures","§3 C14"),
+ "C16":("exploration","seeded re-write histories; digests vs independent implementation; content area vs model; scheduler families: concurrent writers of identical content (serialisability oracle, two-switch enumeration), dropped write futures","§3 C16"),
+ "C17":("exploration","two-party histories: library vs independent reference writer/reader of the format; own-writes family under the system-call scheduler","§3 C17"),
  "C18":("fault_enumeration","storage-fault injection x every extraction entry point x destination states","§3 C18"),
  "C19":("exploration","seeded link_to histories with target mutation and cwd changes","§3 C19"),
- "C20":("exploration","hostile programs and on-disk states under panic catcher and watchdog","§3 C20"),
+ "C20":("exploration","hostile programs and on-disk states under panic catcher and watchdog; dropped write futures followed by write_all / flush under the system-call scheduler (progress watchdog)","§3 C20"),
 }
 SYS={}
 try:
